@@ -52,8 +52,14 @@ func (j *job) runOps(ops []*token, trace func(string)) (int, []fired) {
 				maskStr(or2.signers(j.n, bAp), j.n), maskStr(or2.signers(j.n, bNil), j.n)))
 		}
 		fs := j.judge(ob, t, added, err, k2 != key, ob2, or2)
-		if len(fs) == 0 && j.typ == kproto.PrecommitType && ob2.ok && ob2.maj > 0 {
-			fs = j.checkMakeCommit(vs, or2, ob2)
+		if (len(fs) == 0 || replayContinue) && j.typ == kproto.PrecommitType && ob2.ok && ob2.maj > 0 {
+			fs = append(fs, j.checkMakeCommit(vs, or2, ob2)...)
+		}
+		if len(fs) > 0 && replayContinue && trace != nil && i < len(ops)-1 {
+			for _, f := range fs {
+				trace(fmt.Sprintf("    (continuing past oracle=%s: %s)", f.oracle, f.detail))
+			}
+			fs = nil
 		}
 		if len(fs) > 0 {
 			return i, fs
@@ -62,6 +68,10 @@ func (j *job) runOps(ops []*token, trace func(string)) (int, []fired) {
 	}
 	return -1, nil
 }
+
+// replayContinue (env C02_REPLAY_CONTINUE=1, replay mode only) keeps executing a replayed history
+// past a violation and also runs the MakeCommit check in violating states; for diagnosis.
+var replayContinue bool
 
 func errStr(err error) string {
 	if err == nil {
@@ -120,49 +130,53 @@ func opNames(ops []*token) []string {
 	return s
 }
 
-// kindSet is the violation class: the set of token kinds of a minimised history with block ids
-// named canonically (the family {A, A'} shares a hash: one member alone is "X", both are "X,X'";
-// B is "Y", or "X" when no member of the A family occurs; a re-signed A counts as A).
+// kindSet is the violation class: the set of token kinds of a minimised history with the vote
+// targets named canonically in order of first appearance (X, Y, Z; nil is a target like any other;
+// A and A' share a hash: when both occur they are named L and L', a lone member is just L; a
+// re-signed A counts as A). Invalid-vote kinds keep their name.
 func kindSet(ops []*token) string {
-	famA, a, ap, famB := false, false, false, false
-	for _, t := range ops {
+	base := func(t *token) string {
 		k := t.kind
 		if t.vote == nil {
 			k = blkName[t.claim]
 		}
-		switch k {
-		case "A", "A~":
-			famA, a = true, true
-		case "A'":
-			famA, ap = true, true
-		case "B":
-			famB = true
-		}
-	}
-	_ = famB
-	name := func(k string) string {
-		switch k {
-		case "A", "A~":
-			return "X"
-		case "A'":
-			if a && ap {
-				return "X'"
-			}
-			return "X"
-		case "B":
-			if famA {
-				return "Y"
-			}
-			return "X"
+		if k == "A~" {
+			k = "A"
 		}
 		return k
+	}
+	hasA, hasAp := false, false
+	for _, t := range ops {
+		switch base(t) {
+		case "A":
+			hasA = true
+		case "A'":
+			hasAp = true
+		}
+	}
+	letters := map[string]string{}
+	name := func(k string) string {
+		if strings.HasPrefix(k, "!") {
+			return k
+		}
+		root, prime := k, ""
+		if k == "A'" {
+			root = "A"
+			if hasA && hasAp {
+				prime = "'"
+			}
+		}
+		if letters[root] == "" {
+			letters[root] = string(rune('X' + len(letters)))
+		}
+		return letters[root] + prime
 	}
 	m := map[string]bool{}
 	for _, t := range ops {
 		if t.vote == nil {
-			m["claim:"+name(blkName[t.claim])] = true
+			m["claim:"+name(base(t))] = true
 		} else {
-			m[name(t.kind)] = true
+			m[name(base(t))] = true
 		}
 	}
 	var ks []string
